@@ -48,6 +48,60 @@ def gap_class(text, a_end, b_start):
                          '-after-comment' if after else '')
 
 
+OPERAND_END = frozenset(['ID', 'NUM', 'STR', 'REGEX', 'this', 'null', 'true',
+                         'false', ')', ']', '}', 'get', 'set'])
+RESTRICTED_KW = frozenset(['return', 'break', 'continue', 'throw'])
+STMT_KW = frozenset(['var', 'if', 'for', 'while', 'do', 'return', 'break',
+                     'continue', 'throw', 'switch', 'try', 'with', 'debugger',
+                     'else', 'case', 'default', 'catch', 'finally'])
+OPERAND_START = frozenset(['ID', 'NUM', 'STR', 'this', 'null', 'true',
+                           'false', 'function', 'new', 'get', 'set'])
+
+
+def coarse_prev(c):
+    if c in OPERAND_END:
+        return 'OPERAND'
+    if c in ('++', '--'):
+        return 'INCDEC'
+    if c in RESTRICTED_KW:
+        return c
+    if c in ('NONE', 'EOF', ';', '{', '(', '[', ',', ':', '='):
+        return c
+    if c[:1].isalpha():
+        return 'KEYWORD'
+    return 'OP'
+
+
+def coarse_next(c):
+    if c in OPERAND_START:
+        return 'OPERAND'
+    if c in ('typeof', 'void', 'delete', '!', '~'):
+        return 'UNARY'
+    if c in STMT_KW:
+        return 'STMT-KW'
+    if c in ('(', '[', '{', '}', ';', 'EOF', ')', ']', ',', ':', '?', '.',
+             'in', 'instanceof', '='):
+        return c
+    if c in ('/', '/=', 'REGEX'):
+        return 'SLASH'
+    if c in ('++', '--'):
+        return 'INCDEC'
+    if c in ('+', '-'):
+        return 'PLUSMINUS'
+    if c[:1].isalpha():
+        return 'KEYWORD'
+    return 'OP'
+
+
+def coarse_ctx(ctx):
+    """'prev gap next' -> coarse classes"""
+    parts = ctx.split(' ')
+    if len(parts) != 3:
+        return ctx
+    return 'prev=%s|gap=%s|next=%s' % (
+        coarse_prev(parts[0]), parts[1], coarse_next(parts[2]))
+
+
 def ref_lex_all(text):
     """Token list of an R2-accepted text (consumed tokens)."""
     r = R2.parse(text)
